@@ -153,4 +153,14 @@ theorem forall₂_filter_map {α β γ} (R : α → β → Prop) (p : α → Boo
     · simp [h2, ih]
     · exact ih
 
+open Ombott.BodyAccess in
+/-- the encoder's Content-Type takes the multipart branch of `POST` -/
+theorem lowerCT_multipart (boundary : Str) (quote : Bool) (cl : Int) (fr : Except Ombott.BodyAccess.FrErr (List Bytes)) :
+    startsWithS (lowerCT ⟨some (contentTypeFor boundary quote), cl, fr⟩) cs!"multipart/" = true := by
+  unfold lowerCT contentTypeFor lower startsWithS
+  simp only [Option.getD_some, List.map_append]
+  have : List.map lowerChar cs!"multipart/form-data; boundary=" = cs!"multipart/form-data; boundary=" := by decide
+  rw [this]
+  rfl
+
 end Ombott.Forms
